@@ -420,17 +420,17 @@ SlashAssets(st, a) ==
       res == Fold(poolStep, [st |-> st1, pools |-> {}], AORD)
   IN [st |-> res.st, err |-> "", exec |-> [p |-> p, und |-> und, pools |-> res.pools]]
 
-\* Slash = CheckSlashParameter ; cache{SlashAssets} ; UpdateOperatorSlashInfo (after the commit)
+\* Slash = CheckSlashParameter ; cache{ SlashAssets ; UpdateOperatorSlashInfo }
+\* (since the fix "operator Slash records the slash info in the same cache context": a slash
+\* rejected by UpdateOperatorSlashInfo leaves nothing behind)
 Slash(st, a) ==
   IF NIsNeg(a.factor) THEN Fail(st, "ErrValueIsNilOrZero") ELSE
   IF a.infr > st.h THEN Fail(st, "ErrSlashOccurredHeight") ELSE
   IF a.power <= 0 THEN Fail(st, "ErrInvalidSlashPower") ELSE
   LET r == SlashAssets(st, a) IN
   IF r.err # "" THEN Fail(st, r.err) ELSE
-  \* writeFunc(): committed. Now UpdateOperatorSlashInfo:
-  IF <<a.o, a.id>> \in r.st.sinfo THEN Fail(r.st, "ErrSlashInfoExist") ELSE
-  IF a.infr > st.h THEN Fail(r.st, "ErrSlashInfo") ELSE
-  IF NGt(a.factor, PREC) THEN Fail(r.st, "ErrSlashInfo") ELSE
+  IF <<a.o, a.id>> \in r.st.sinfo THEN Fail(st, "ErrSlashInfoExist") ELSE
+  IF NGt(a.factor, PREC) THEN Fail(st, "ErrSlashInfo") ELSE
   Ok([r.st EXCEPT !.sinfo = @ \cup {<<a.o, a.id>>}])
 
 (***************************************************************************)
